@@ -25,11 +25,14 @@ def run(ctx, chk):
                 for n in names:
                     if is_stdout_sink(n):
                         writers.setdefault(f, []).append((t['line'], n))
-        if SET_CONTROL not in writers:
-            chk.error('[%s] stdout sink detector found no write in %s (positive control lost)' % (cfg, SET_CONTROL))
+        # set_control and the private helpers it is split into (functions of SerialComms called from nowhere else)
+        fam = private_family(prog, SET_CONTROL)
+        if not (set(writers) & fam):
+            chk.error('[%s] stdout sink detector found no write in %s or its private helpers (positive control lost)'
+                      % (cfg, SET_CONTROL))
         for f, sites in sorted(writers.items()):
             key = '%s:%s' % (cfg, f)
-            if f == SET_CONTROL:
+            if f in fam:
                 chk.ok('C18.1', key, sample={'writer': f, 'sinks': sorted(set(n for _, n in sites))})
             else:
                 path = prog.path_to(parent, f)
@@ -101,7 +104,8 @@ def run(ctx, chk):
             chk.fail('C18.3', 'set_data:path%d' % i, 'set_data does more than store the latch: %s'
                      % [(e[0], e[1]) for e in r.state.events], file, line)
     # ---- rule 4: routing
-    setters = [n for n in prog.fns if n.startswith('devices::') and n != IO_SET]
+    iofam = private_family(prog, IO_SET)
+    setters = [n for n in prog.fns if n.startswith('devices::') and n not in iofam]
     ip2 = absint.Interp(facts, opaque=setters)
     st = ip2.new_state()
     io = ip2.arg_object(st, 'io')
@@ -112,6 +116,11 @@ def run(ctx, chk):
     for r in rs:
         calls = [e[1] for e in r.state.events if e[0] == 'call']
         off = r.state.env.const_of(low)
+        if off is None:
+            off = r.state.env.const_of(O(8, 'trunc', addr))
+        if off is None:
+            from .. import bvproof
+            off = bvproof.const_diff_under(low, C(16, 0), r.state.env, 16)
         for c in calls:
             if c in (SET_CONTROL, SET_DATA):
                 route.setdefault(c, []).append(off)
@@ -127,7 +136,7 @@ def run(ctx, chk):
         p2 = ctx.program(cfg)
         cs = sorted(set(c[0] for c in p2.callers(IO_SET)))
         cs2 = sorted(set(c[0] for c in p2.callers(SET_CONTROL)))
-        if cs == ['mem::memory_write_byte'] and cs2 == [IO_SET]:
+        if cs == ['mem::memory_write_byte'] and cs2 and set(cs2) <= private_family(p2, IO_SET):
             chk.ok('C18.4', 'callers:%s' % cfg, sample={'IO::set_byte callers': cs, 'set_control callers': cs2})
         else:
             chk.fail('C18.4', 'callers:%s' % cfg, 'IO::set_byte is called from %s, set_control from %s' % (cs, cs2),
